@@ -186,6 +186,11 @@ theorem repeat_bounds_counterexample :
 theorem reshape_negative_min_bound_counterexample :
     reshape [2, 3, 2] [12] = some [12] ∧ clipList [1] [12] ≠ [12] := by decide
 
+/-- known finding C09.take-clipped-indices: `take` types its result shape by the index ENTRIES; with the clipped
+    entries `(2 ≤ 3, 0 ≤ 1)` every extent of the true result `(2,2)` is clamped to the bound `1` of the last entry -/
+theorem take_index_bound_counterexample :
+    vTake [2, 3] [2, 0] 1 = some ([2, 2], [2, 0, 5, 3]) ∧ clipList [1, 1] [2, 2] ≠ [2, 2] := by decide
+
 /-! ### the reference refuses every member of the refusal classes of the kind matrix -/
 
 /-- all-positive target: accepted exactly when the element counts agree, and then the answer is the target itself.
@@ -302,5 +307,75 @@ theorem matmulShape_refuses_contraction (a b : List Nat) (x y : Nat)
     simp [hxy]
 example : matmulShape [2, 3] [2, 2] = none := by decide
 example : matmulShape [2, 1, 3, 4] [5, 4, 2] = some [2, 5, 3, 2] := by decide
+
+/-! ### views: refused exactly when the shape function refuses; accepted answers are well-formed arrays -/
+
+theorem vReshape_none_iff (s : List Nat) (d : List Int) : vReshape s d = none ↔ reshape s d = none := by
+  simp [vReshape]
+
+theorem vBroadcastTo_none_iff (s t : List Nat) : vBroadcastTo s t = none ↔ broadcastTo s t = none := by
+  simp [vBroadcastTo]
+
+theorem vAdd_none_iff (a b : List Nat) : vAdd a b = none ↔ broadcastShape a b = none := by
+  simp [vAdd]
+
+theorem vBroadcastArrays_none_iff (a b : List Nat) : vBroadcastArrays a b = none ↔ broadcastShape a b = none := by
+  simp [vBroadcastArrays]
+
+theorem vWhere_none_iff (c x y : List Nat) : vWhere c x y = none ↔ broadcastShapes [c, x, y] = none := by
+  simp [vWhere]
+
+theorem vPad_none_iff (s pw : List Nat) : vPad s pw = none ↔ pw.length ≠ 2 * s.length := by
+  simp [vPad, pad]
+
+theorem vMatmul_none_iff (a b : List Nat) : vMatmul a b = none ↔ matmulShape a b = none := by
+  simp [vMatmul]
+
+/-- operand order: `x + y` and `y + x` are refused together and have the same shape -/
+theorem vAdd_shape_comm (a b : List Nat) : (vAdd a b).map (·.1) = (vAdd b a).map (·.1) := by
+  simp only [vAdd, Option.map_map]
+  rw [broadcastShape_comm' a b]
+  rfl
+
+example : (vAdd [2, 1] [1, 3]).map (·.1) = some [2, 3] ∧ (vAdd [1, 3] [2, 1]).map (·.1) = some [2, 3] := by decide
+example : vAdd [2, 3] [2] = none ∧ vAdd [2] [2, 3] = none := by decide
+
+/-- every accepted reference answer of the tabulated views is a well-formed array -/
+theorem vrefs_wf (v : ArrV) :
+    (∀ s t, vBroadcastTo s t = some v → WF v) ∧ (∀ a b, vAdd a b = some v → WF v) ∧
+    (∀ s pw, vPad s pw = some v → WF v) ∧ (∀ s ax, vFlip s ax = some v → WF v) ∧
+    (∀ c x y, vWhere c x y = some v → WF v) ∧ (∀ a b, vMatmul a b = some v → WF v) ∧
+    (∀ s ind ax, vTake s ind ax = some v → WF v) ∧ (∀ s r, vTile s r = v → WF v) := by
+  refine ⟨?_, ?_, ?_, ?_, ?_, ?_, ?_, ?_⟩
+  · intro s t h; simp only [vBroadcastTo, Option.map_eq_some_iff] at h
+    obtain ⟨r, _, rfl⟩ := h; exact tabulate_wf _ _
+  · intro a b h; simp only [vAdd, Option.map_eq_some_iff] at h
+    obtain ⟨r, _, rfl⟩ := h; exact tabulate_wf _ _
+  · intro s pw h; simp only [vPad, Option.map_eq_some_iff] at h
+    obtain ⟨r, _, rfl⟩ := h; exact tabulate_wf _ _
+  · intro s ax h; simp only [vFlip, Option.map_eq_some_iff] at h
+    obtain ⟨r, _, rfl⟩ := h; exact tabulate_wf _ _
+  · intro c x y h; simp only [vWhere, Option.map_eq_some_iff] at h
+    obtain ⟨r, _, rfl⟩ := h; exact tabulate_wf _ _
+  · intro a b h; simp only [vMatmul, Option.map_eq_some_iff] at h
+    obtain ⟨r, _, rfl⟩ := h; exact tabulate_wf _ _
+  · intro s ind ax h; simp only [vTake, Option.bind_eq_some_iff] at h
+    obtain ⟨k, _, h⟩ := h
+    split at h
+    · cases h
+    · cases h; exact tabulate_wf _ _
+  · intro s r h; subst h; exact tabulate_wf _ _
+
+example : vPad [2, 3] [0, 2, 1, 0] = some ([3, 5], [9999, 9999, 0, 1, 2, 9999, 9999, 3, 4, 5, 9999, 9999, 9999, 9999, 9999]) := by decide
+
+/-- all-positive target: the reshaped reference array is well formed (the element counts agree) -/
+theorem vReshape_wf_allpos (s : List Nat) (d : List Int) (v : ArrV) (h : ∀ x ∈ d, 0 < x) (hv : vReshape s d = some v) :
+    WF v := by
+  simp only [vReshape, Option.map_eq_some_iff] at hv
+  obtain ⟨r, hr, rfl⟩ := hv
+  have := (reshape_allpos_iff s d r h).mp hr
+  simp [WF, this.2, this.1]
+
+example : vReshape [2, 3] [3, 2] = some ([3, 2], [0, 1, 2, 3, 4, 5]) := by decide
 
 end NmVerif.Props.C09
